@@ -53,6 +53,9 @@ def inst_text(fam='xoptional'):
             ps = ', '.join('const %s& %s' % ('OD' if c == 'o' else 'double', v) for c, v in zip(pat, 'abc'))
             f((ps, 'xtl::%s(a, b, c)' % nm))
     if fam == 'xoptional':
+        # mixed precision: the result type is the common type of ALL operands (double), whichever position the widest one has
+        f(('const xtl::xoptional<float>& a, const double& b, const float& c', 'xtl::fma(a, b, c)'))
+        f(('const float& a, const xtl::xoptional<double>& b, const float& c', 'xtl::fma(a, b, c)'))
         f(('const OI& c, const OI& a, const OI& b', 'xtl::select(c, a, b)')); f(('const bool& c, const OI& a, const OI& b', 'xtl::select(c, a, b)'))
         f(('const xtl::xoptional<bool>& c, const int& a, const OI& b', 'xtl::select(c, a, b)')); f(('const xtl::xoptional<bool>& c, const OI& a, const int& b', 'xtl::select(c, a, b)'))
         f(('const OI& a, const int& d', 'a.value_or(d)'))
